@@ -14,8 +14,8 @@ variable {cfg : Cfg} {s t : State} {e : Option Ev}
   cases op <;> cases c <;> rfl
 @[simp] theorem entry_holding (op : Op) (c : Bool) : apiHolding (entry op c) = false := by
   cases op <;> cases c <;> rfl
-@[simp] theorem entry_needsClosed (op : Op) (c : Bool) : apiNeedsClosed (entry op c) = false := by
-  cases op <;> cases c <;> rfl
+theorem entry_needsClosed (op : Op) (c : Bool) : apiNeedsClosed (entry op c) = true → c = true := by
+  cases op <;> cases c <;> simp [entry, apiNeedsClosed]
 @[simp] theorem entry_afterClose (op : Op) : apiAfterClose (entry op true) = true := by
   cases op <;> rfl
 @[simp] theorem entry_ne_cJoin (op : Op) (c : Bool) : entry op c ≠ .cJoin := by
@@ -47,7 +47,7 @@ theorem order_append {l : List Item} {it : Item} {o sub : Nat}
 
 /-- first rewrite the auxiliary predicates on `entry op c` (before they get unfolded) -/
 macro "entry_simp" : tactic =>
-  `(tactic| try simp only [dropped, activeCount, entry_noActive, entry_dropped, entry_holding, entry_needsClosed,
+  `(tactic| try simp only [dropped, activeCount, entry_noActive, entry_dropped, entry_holding,
       entry_afterClose, entry_ne_cJoin, entry_ne_cEof, ne_eq, not_false_eq_true] at *)
 
 /-! ### API goroutine steps -/
@@ -100,8 +100,9 @@ theorem api_needsClosed (hi : Inv cfg s) (h : apiStep cfg s = some (e, t)) :
   have h4 := hi.needsClosed
   unfold apiStep at h
   step_cases h
-  all_goals entry_simp
-  all_goals simp_all [apiNeedsClosed]
+  all_goals first
+    | (intro hc; exact entry_needsClosed _ _ hc)
+    | (entry_simp; simp_all [apiNeedsClosed])
 
 theorem api_emDone (hi : Inv cfg s) (h : apiStep cfg s = some (e, t)) :
     t.em = .done → t.closed = true ∧ t.queue = [] := by
@@ -169,10 +170,17 @@ theorem api_order (hi : Inv cfg s) (h : apiStep cfg s = some (e, t)) :
     | (intro hw; rw [unwritten_unhold, map_blk_unhold, List.length_map]; exact h1 hw)
     | (intro hw; simp at hw)
 
+theorem api_eofClosed (hi : Inv cfg s) (h : apiStep cfg s = some (e, t)) : t.eof = true → t.closed = true := by
+  have h1 := hi.eofClosed
+  have h4 := hi.needsClosed
+  unfold apiStep at h
+  step_cases h
+  all_goals simp_all [apiNeedsClosed]
+
 theorem api_inv (hi : Inv cfg s) (h : apiStep cfg s = some (e, t)) : Inv cfg t :=
   ⟨api_pref hi h, api_le hi h, api_order hi h, api_pend hi h, api_cons hi h, api_act hi h, api_held hi h,
    api_closedApi hi h, api_needsClosed hi h, api_emDone hi h, api_joined hi h, api_eofOK hi h, api_rep hi h,
-   api_cur hi h⟩
+   api_cur hi h, api_eofClosed hi h⟩
 
 /-! ### emitter goroutine steps (repaired protocol) -/
 
@@ -335,11 +343,12 @@ theorem em_inv (hr : cfg.repaired = true) (hi : Inv cfg s) (h : emStep cfg s = s
   obtain ⟨f1, f2, f3, f4, f5, f6, f7⟩ := em_frame h
   obtain ⟨p1, p2, p3⟩ := em_pref_order hr hi h
   refine ⟨p1, p2, p3, em_pend hr hi h, em_cons hr hi h, ?_, em_held hr hi h, ?_, ?_, em_emDone hr hi h,
-    em_joined hr hi h, em_eofOK hr hi h, em_rep hr hi h, ?_⟩
+    em_joined hr hi h, em_eofOK hr hi h, em_rep hr hi h, ?_, ?_⟩
   · rw [f1, f4, f5]; exact hi.act
   · rw [f1, f5]; exact hi.closedApi
   · rw [f1, f5]; exact hi.needsClosed
   · rw [f1, f3]; exact hi.cur
+  · rw [f7, f5]; exact hi.eofClosed
 
 /-! ### compressor goroutines -/
 
@@ -350,7 +359,7 @@ theorem finQ_inv (hi : Inv cfg s) {i : Nat} {q : List Item} (h : finishAt i s.qu
     simp [unwritten, hb]
   have hul : (unwritten { s with queue := q }).length = (unwritten s).length := by
     simp [unwritten, hl]
-  refine ⟨hi.pref, hi.le, ?_, ?_, ?_, hi.act, ?_, hi.closedApi, hi.needsClosed, ?_, hi.joined, hi.eofOK, hi.rep, hi.cur⟩
+  refine ⟨hi.pref, hi.le, ?_, ?_, ?_, hi.act, ?_, hi.closedApi, hi.needsClosed, ?_, hi.joined, hi.eofOK, hi.rep, hi.cur, hi.eofClosed⟩
   · intro hw
     rw [hu, hul]
     exact hi.order hw
@@ -371,7 +380,7 @@ theorem finE_inv (hi : Inv cfg s) {it : Item} (hem : s.em = .hold it) (hc : it.s
     simp [unwritten, hem, emUnwritten]
   have hul : (unwritten { s with em := .hold { it with st := .flushed } }).length = (unwritten s).length := by
     simp [unwritten, hem, emUnwritten]
-  refine ⟨hi.pref, hi.le, ?_, ?_, ?_, hi.act, ?_, hi.closedApi, hi.needsClosed, ?_, ?_, hi.eofOK, ?_, hi.cur⟩
+  refine ⟨hi.pref, hi.le, ?_, ?_, ?_, hi.act, ?_, hi.closedApi, hi.needsClosed, ?_, ?_, hi.eofOK, ?_, hi.cur, hi.eofClosed⟩
   · intro hw
     rw [hu, hul]
     refine hi.order ?_
@@ -393,7 +402,7 @@ theorem finE_inv (hi : Inv cfg s) {it : Item} (hem : s.em = .hold it) (hc : it.s
 
 theorem inv_init (cfg : Cfg) : Inv cfg (init cfg) := by
   have hn := cfg.n_ge_two
-  refine ⟨rfl, Nat.le_refl _, ?_, rfl, ?_, rfl, rfl, ?_, ?_, ?_, ?_, ?_, ?_, trivial⟩
+  refine ⟨rfl, Nat.le_refl _, ?_, rfl, ?_, rfl, rfl, ?_, ?_, ?_, ?_, ?_, ?_, trivial, ?_⟩
   · intro _; exact ⟨rfl, rfl⟩
   · simp [init, emHolds, activeCount, dropped, apiDropped]; omega
   all_goals simp [init, apiNeedsClosed]
